@@ -2066,32 +2066,50 @@ class C08(Property):
     thorough_cases = 12000
     search_factor = 4
     design_ref = "DESIGN.md §6/C08"
-    level_text = ("Unbounded Rocq theorems over a deep embedding of struct types (all primitive kinds, pointers, nested "
-                  "structs, slices, maps; optional / optional=dep / optional=!dep / default / range / options / string) and "
-                  "document trees: the unmarshaller model accepts a document iff it is well-typed and meets every declared "
-                  "constraint, the result then is exactly the typed decoding with defaults, and no input yields a panic. "
-                  "The model is tied to core/mapping and rest/httpx by differential execution on reflect.StructOf types.")
+    level_text = ("Unbounded Rocq theorems over a deep embedding of struct types (all primitive kinds, pointers, nested and "
+                  "embedded structs, slices, maps; optional / optional=dep / optional=!dep / default (also on slices) / range / "
+                  "options / string; keys with dots, the key '-') and document trees, for every unmarshaller configuration AND "
+                  "every key look-up semantics (opaque parameter names of form/path, chained dotted keys of json/yaml/toml/conf/"
+                  "header with scope fall-back): the model accepts a document iff it is well-typed and meets every declared "
+                  "constraint, the result then is exactly the typed decoding with defaults, no input yields a panic; every field at "
+                  "any depth of an accepted document meets its constraints; a call of httpx.Parse is accepted iff each of its four "
+                  "passes is and the validator agrees; calls served by one process are independent. The model is tied to "
+                  "core/mapping and rest/httpx by differential execution on reflect.StructOf types, single calls and sequences of "
+                  "calls of different unmarshaller kinds in one process.")
     level_note = ("Trusted: Coq kernel + vm_compute; hand-written model; correspondence only on generated types/documents; "
-                  "encoding/json, net/http and strconv are outside the model (number syntax and float rounding are "
-                  "modelled exactly only for decimal literals of <= 15 significant digits).")
-    rule = ("cases: struct types of 1-4 fields (depth <= 2 quick, <= 3 thorough) over 14 kinds with every combination of "
-            "optional/optional=dep/optional=!dep/default/range/options/string, documents valid or with one violation "
-            "(missing, extra presence, null, out of range incl. open/closed ends, not an option, wrong type, overflow, "
-            "number syntax), through 9 entry points; non-trivial = the type has a field combining >= 2 option kinds or a "
-            "composite type, and the document supplies at least one constrained or nested field; distinct = canonical hash")
+                  "encoding/json, yaml.v2, go-toml, net/http and strconv are outside the model (number syntax and float rounding "
+                  "are modelled exactly only for decimal literals of <= 15 significant digits); the projection of an httpx.Parse "
+                  "target onto its passes is done by tools/props/c08.py.")
+    rule = ("cases: (1) struct types of 1-4 fields (depth <= 2 quick, <= 3 thorough) over 14 kinds with every combination of "
+            "optional/optional=dep/optional=!dep/default/range/options/string, documents valid or with one violation, through 20 "
+            "entry points (json bytes/reader/map, yaml, toml, key, valuer, form, path, header, opaque/dotted variants, "
+            "httpx.ParseJsonBody/ParseForm/ParsePath/ParseHeaders/Parse); (2) sequences of 2-6 calls of different kinds in one "
+            "process on the same key text / tag text / struct type / default text, both orders, with per-case unique texts; "
+            "(3) httpx.Parse on multi-tagged structs fed from four sources + request validator; (4) dotted keys with scope "
+            "fall-back and object completion, '-' keys, tag syntax variants and malformed tags, boundary spellings of numbers, "
+            "supplied zero values, slice defaults, dependency chains and cycles, content types, broken texts. "
+            "non-trivial = the type has a field combining >= 2 option kinds or a composite type and the document supplies a "
+            "constrained or nested field; for sequences: an earlier call carries a key the last one omits; distinct = canonical hash")
     trusted_base = [
-        "model theories/C08/Model.v is hand-written; tie = correspondence run (harness/cmd/c08) on generated types and documents",
-        "encoding/json (document decoding), net/http + rest/httpx.GetFormValues (request pre-processing, mirrored in "
-        "tools/props/c08.py:model_doc), strconv (number parsing/rounding) and reflect are not modelled",
-        "the JSON tree handed to the model is produced by the generator, not re-parsed from the text sent to Go",
+        "models theories/C08/Model.v + KModel.v are hand-written; tie = correspondence run (harness/cmd/c08) on generated types, "
+        "documents and call sequences; constants and unmarshaller constructions re-extracted from the source on every run "
+        "(coq/gen/C08Consts.v, obligations GenProofs.v)",
+        "encoding/json, yaml.v2, go-toml (document decoding), net/http + rest/httpx.GetFormValues (request pre-processing, mirrored "
+        "in tools/props/c08.py: form_doc / header_doc / body_doc), strconv (number parsing/rounding) and reflect are not modelled",
+        "the JSON tree handed to the model is produced by the generator, not re-parsed from the text sent to Go; the view of a "
+        "multi-tagged struct per unmarshaller kind and the projection of the observed target (view_type / project_val) are Python",
     ]
     assumptions = [
         "decimal literals with <= 15 significant digits (<= 6 for float32) and |n| < 2^53: exact comparison and float64 "
         "comparison coincide, and the decoded float prints back to the literal",
-        "keys are non-empty, contain no '.', ',' or '-' and are distinct after header canonicalisation",
+        "keys are non-empty, contain no ',' and are distinct after header canonicalisation; a field tagged for several passes of "
+        "httpx.Parse is optional without default in each and supplied by at most one source",
+        "object completion from an outer scope (recursiveValuer) mutates the document in place: generated only where no other "
+        "field reads the completed object",
         "outside the fragment (never generated): env=, inherit, TextUnmarshaler/json.Unmarshaler fields, time.Duration, "
-        "anonymous/embedded fields, pointers to slices/maps, []byte from base64, default= on slices, strings holding JSON "
-        "for slice/map fields, hexadecimal or '_'-separated number strings, fillDefault mode",
+        "pointers to slices/maps, []byte from base64, strings holding JSON for slice/map fields, map[string]any, hexadecimal or "
+        "'_'-separated float strings, fillDefault mode, '-' or slice defaults inside an embedded ',optional' struct, default texts "
+        "for non-string slices outside printable ASCII without { } \\ :",
     ]
 
     proof_targets = ["theories/C08/Props.vo", "theories/C08/Pinned.vo", "theories/C08/PinnedK.vo",
